@@ -5,7 +5,9 @@ undone on every exit of the visiting generators, including GeneratorExit at the
 yield; (pure) no mutate_* visitor writes through its `node` parameter or an alias
 of a part of it; (count) mutation_count and the selection enumerate the same
 expression; (exhaust) mutators that regenerate a selected mutation exhaust the
-operator generator after use so the splice is undone before the next one.
+operator generator after use so the splice is undone before the next one;
+(index-space) a position bound by enumerate(E) stores only into the list E enumerates;
+a mutator with its own mutate() has its own (or the generic) mutation_count.
 """
 
 from __future__ import annotations
